@@ -12,7 +12,7 @@ TRUST = ('Trusted: z3 5.1.0; CPython executing the real control flow; real-numbe
 CHECKS = {
     # id: (technique, level text, level note, design ref)
     'C01': ('bounded symbolic execution of the real rate() and of an independent reference in one path (sx engine) + z3 QF_NRA equality per player; sat models replayed on float code',
-            'For every model, listed team shapes and every weak order, limit_sigma on/off, default and uninterpreted gamma: z3 shows on every path that the real rate() returns exactly the terms of the reference written from the paper (Algorithms 1-4 with the documented extensions).',
+            'For every model, listed team shapes (PL/BT up to 8 teams and 8 players, TM up to 3 teams) and outcomes, limit_sigma on/off, default and uninterpreted gamma: z3 shows on every path that the real rate() returns exactly the terms of the reference written from the paper (Algorithms 1-4 with the documented extensions).',
             TRUST + ' The reference ref/wenglin.py is trusted to be the published rule.', '6/C01'),
     'C02': ('symbolic execution of the real rate() over a symbolic rank/score vector (values z3 Real, Python kinds z3 Int tags; z3 decides path feasibility and exhaustiveness), per-path concrete slot/id/aliasing oracle',
             'Every path of rate() over ALL finite int/float/bool rank or score vectors of length 2-4 (5 single-kind in thorough) is explored on games with distinct players; on each path ids, names, nesting, aliasing and the reference posterior of each slot are checked.',
@@ -20,8 +20,8 @@ CHECKS = {
     'C03': ('symbolic execution of the real rate() over a symbolic rank/score vector (values z3 Real, kinds z3 Int tags), z3-decided path partition; per path comparison with the real code on canonical dense ranks',
             'Every path of rate() over ALL finite int/float/bool rank or score vectors of length 2-4 (5 single-kind in thorough): the result equals the result for the canonical dense int ranks of the path\'s weak order; scores == negated ranks; omitted == [0..n-1].',
             'Trusted: z3 (LRA/LIA), exactness of CPython comparisons between finite int/float/bool. NaN/inf ranks outside. Game values concrete.', '6/C03'),
-    'C08': ('symbolic execution of the real rate()/predict_* with every arithmetic exception (zero division, sqrt domain, exp overflow, float underflow of exp/Phi/phi to zero) as a guarded path outcome; z3 refutes each guard on its cone of influence / the full path; open guards replayed on float code',
-            'Over the exact numeric domain of the property (symbolic beta covers the rescaling; sigma = 0 with tau > 0 included) and the listed shapes up to 8+8 players (16+16 and 8 teams in thorough): every guard on every path is refuted, no path ends in an exception.',
+    'C08': ('symbolic execution of the real rate()/predict_* with every arithmetic exception (zero division incl. cancellation of A-B to zero, sqrt domain, exp overflow, float underflow of exp/Phi/phi to zero) as a guarded path outcome; z3 refutes each guard on its cone of influence / the full path; open guards replayed on float code',
+            'Over the exact numeric domain of the property (symbolic beta covers the rescaling; sigma = 0 with tau > 0 included) and the listed shapes up to 8+8 players and eight single-player teams (16+16 in thorough): every guard on every path is refuted, no path ends in an exception.',
             TRUST + ' Overflow/underflow of + - * / ** is argued by magnitudes, not solved.', '6/C08'),
     'C09': ('symbolic execution of the real predict_win (single and two-run) + z3 (QF_NRA with Phi axioms) per clause and path; sat models replayed on float code',
             'For every model and listed shape and all mu, sigma >= 0, beta > 0: one value per team in [0,1] summing to 1; every team permutation (all n!) and player reversal permutes the result; identical teams get identical values (two: exactly 1/2); raising any member\'s mu by any d > 0 never lowers own and never raises another team\'s value.',
@@ -39,7 +39,7 @@ CHECKS = {
             'The paths partition the whole argument grammar (containers, team shapes, foreign ratings, element kinds at every position, both selectors): rejected paths are malformed for every completion of the uninspected positions, accepted paths well-formed, no other exception class escapes, and a rejected call leaves every rating and the model untouched.',
             'Trusted: CPython semantics of the executed operations on the menu representatives; the menus (printed in the evidence) stand for their kinds.', '6/C13'),
     'C14': ('symbolic execution of the real rate()/predict_* with write/inspection monitors + two-run z3 equality (history vs fresh model, original vs rebuilt ratings)',
-            'On every path of every call variant (per-call tau symbolic, limit_sigma in {None,True,False}) no model attribute is written, ids/names/hash are never consulted, and a call after an arbitrary earlier call returns the same terms as on a fresh model. Thread interleavings and hash seeds are not explored; only the non-interference premises are checked.',
+            'On every path of every call variant (per-call tau symbolic, limit_sigma in {None,True,False}) no model attribute is written, ids/names/hash are never consulted, and a call after an arbitrary earlier call (through the same model, a differently configured sibling instance or another model class) returns the same terms as on a fresh model in a pristine import. Thread interleavings and hash seeds are not explored; only the non-interference premises are checked.',
             TRUST + ' Interleavings/PYTHONHASHSEED themselves: outside (paper argument from the checked premises).', '6/C14'),
     'C15': ('two-run symbolic execution of the real rate() in one path (sx engine) + z3 equality of result terms; sat models replayed on float code',
             'For symbolic t >= 0 (the t == 0 fork included), symbolic model-level tau, all b, b0: rate with the per-call option returns the same terms as a model constructed with that option; omitted/None uses the model\'s own.',
